@@ -13,6 +13,7 @@ import DltVerif.Spec.NonVerbose
 import DltVerif.Spec.WF
 import DltVerif.Spec.Reader
 import DltVerif.Spec.Stats
+import DltVerif.Spec.Zts
 
 namespace Dlt.Ops
 open Dlt.Wire
@@ -62,6 +63,31 @@ def pZts : PRes Bytes → String
   | .error => "ERR HICKUP"
   | .failure => "ERR UNRECOVERABLE"
   | .panic => "PANIC"
+
+/-- what the Spec expects of a fixed-size field (long inputs are left to CORR: the Spec's
+    longest-valid-prefix search is quadratic) -/
+def pZtsSpec (n : Nat) (s : Bytes) : String :=
+  if n ≤ s.length ∧ ((s.take n).takeWhile (fun b => b != 0#8)).length > 600 then "skip"
+  else
+    match Spec.ztsField n s with
+    | .field t rest => s!"OK {pBytes t} rest={rest.length}"
+    | .incomplete m => s!"INCOMPLETE {m}"
+
+def pIds (sh ecu app ctx : Option Bytes) : String :=
+  s!"sh={pOpt pBytes sh} ecu={pOpt pBytes ecu} app={pOpt pBytes app} ctx={pOpt pBytes ctx}"
+
+/-- C19: the id fields of the message parsed from `bs`, and what the Spec reads at their
+    offsets -/
+def ids (w : Bool) (bs : Bytes) : String :=
+  let model :=
+    match dltMessage bs none w with
+    | .ok (.item m, _) =>
+      "OK " ++ pIds (m.storageHeader.map (·.ecuId)) m.header.ecuId
+        (m.extendedHeader.map (·.applicationId)) (m.extendedHeader.map (·.contextId))
+    | .ok (_, _) => "OTHER"
+    | .error e => pDltError e
+  let f := Spec.idFields w bs
+  model ++ " @@ spec=" ++ pIds f.storageEcu f.ecu f.app f.ctx
 
 def pEnc (m : Message) : String :=
   if m.asBytesPanics then "PANIC" else s!"{pBytes m.asBytes} blen={m.byteLen}"
@@ -399,7 +425,10 @@ def dispatch (op : String) (args : List String) : Except String String :=
   | "TI" => do let w ← run (bv 32) args; pure (ti w)
   | "ZTS" => do
     let (n, s) ← run (do let n ← nat; let s ← bytes; pure (n, s)) args
-    pure (pZts (zts n s))
+    pure (pZts (zts n s) ++ " @@ spec=" ++ pZtsSpec n s)
+  | "IDS" => do
+    let (w, bs) ← run (do let w ← bool; let b ← bytes; pure (w, b)) args
+    pure (ids w bs)
   | "ENC" => do let m ← run message args; pure (pEnc m)
   | "PARSE" => do
     let (w, f, bs) ← run (do let w ← bool; let f ← opt filter; let b ← bytes; pure (w, f, b)) args
